@@ -32,8 +32,10 @@ C19 mft <pre:0|1> <alloc:0|1> <call>*      call := <f|b>.<64|128>; one MFT objec
       answer `ok <state>/<result> …` per call, state = m<64|128|->i<64|128|->, result = fresh | stale:<…>
 C19 nft <pre:0|1> <call>*                  answer `ok f<0|1>b<0|1>/<fresh|stale> …`
 ```
-Answer of `run`: `ok O <obs>* | N <obs>* | DO <obs>* | DN <obs>*` — the per-statement observations of the
-subclass route and of the wrapper route, then the final read-out of every variable under each.
+Answer of `run`: `ok O <obs>* | N <obs>* | DO <obs>* | DN <obs>* | A <0|1> <i|->` — the per-statement
+observations of the subclass route and of the wrapper route, then the final read-out of every variable under
+each, then `agree?` (the hypothesis of `backends_same_values`) and the index of the first statement in which
+a `.shaped` is applied to objects the two routes tag differently.
 `obs := <x>=<tag>:<shape>:<k>:<re>[:<im>] | <x>=E:<err>`, tag `f<g>` / `p` / `s`.
 -/
 namespace HcipyVerif.Driver.C19
@@ -348,7 +350,9 @@ def step (st : St) : List String → St × String
       let sn := " ".intercalate (trn.map showObs)
       let dOld := match fo with | some s => showDump s.dump | none => "-"
       let dNew := match fn with | some s => showDump s.dump | none => "-"
-      (st, s!"ok O {so} | N {sn} | DO {dOld} | DN {dNew}")
+      let ag := if agree? st.grids prog then "1" else "0"
+      let at_ := match disagreeAt st.grids prog with | some i => toString i | none => "-"
+      (st, s!"ok O {so} | N {sn} | DO {dOld} | DN {dNew} | A {ag} {at_}")
   | toks =>
     match stepFourier toks with
     | some r => (st, r)
